@@ -346,8 +346,9 @@ func (m *reMatcher) match(nd *reNode, pos int, k func(int) bool) bool {
 	return false
 }
 
-// findAllSubmatch implements (*Regexp).FindAllStringSubmatch(s, -1).
-func (e *Exec) reFindAll(re *reNode, ncap int, s Slice) [][][2]int {
+// findAllSubmatch implements (*Regexp).FindAllStringSubmatch(s, limit):
+// all matches for limit < 0, at most limit matches otherwise.
+func (e *Exec) reFindAll(re *reNode, ncap int, s Slice, limit int) [][][2]int {
 	n := e.ConcInt(s.Len)
 	base := e.o(s)
 	m := &reMatcher{e: e, n: n, at: func(i int) sym.Sc { return s.St.peek(base + i).(sym.Sc) }}
@@ -355,6 +356,9 @@ func (e *Exec) reFindAll(re *reNode, ncap int, s Slice) [][][2]int {
 	pos := 0
 	prevEnd := -1
 	for pos <= n {
+		if limit >= 0 && len(out) >= limit {
+			break
+		}
 		m.caps = make([]int, 2*(ncap+1))
 		for i := range m.caps {
 			m.caps[i] = -1
